@@ -1,6 +1,9 @@
 use std::collections::HashSet;
 use std::ops::ControlFlow;
+#[cfg(not(tablegen_lsp_verif))]
 use std::sync::Mutex;
+#[cfg(tablegen_lsp_verif)]
+use crate::verif_hooks::Mutex;
 #[cfg(not(tablegen_lsp_verif))]
 use std::sync::{Arc, RwLock};
 #[cfg(tablegen_lsp_verif)]
